@@ -256,3 +256,43 @@ def run_repo_tests(pid, rec, tests=("tests/unit/test_schedulers.py", "tests/inte
     for v in data["violations"]:
         if v["kind"] == pid:
             rec.violation(v["key"], "during the repository's own tests: " + v["msg"])
+
+
+def run_threaded_shard(pid, params, rec):
+    """Schedule stress for the (pure-Python) schedulers: several Python threads build plans for
+    DIFFERENT configurations at the same time (tiny switch interval), every plan is checked by the
+    property's oracle with the configuration its own thread asked for."""
+    import sys
+    import threading
+    seed, nthreads, per = params["seed"], params.get("nthreads", 4), params.get("per_thread", 40)
+    old = sys.getswitchinterval()
+    sys.setswitchinterval(1e-5)
+    results = [[] for _ in range(nthreads)]
+
+    def work(t):
+        rng = gen.rng_for(seed, "threaded", t)
+        for i in range(per):
+            cfg = gen.plan_config(rng, 4000)
+            sched = gen.SCHEDS[(t + i) % 4]
+            try:
+                results[t].append((cfg, sched, call_scheduler(sched, cfg), None))
+            except BaseException as e:   # noqa: BLE001
+                results[t].append((cfg, sched, None, e))
+    try:
+        ths = [threading.Thread(target=work, args=(t,)) for t in range(nthreads)]
+        for th in ths:
+            th.start()
+        for th in ths:
+            th.join()
+    finally:
+        sys.setswitchinterval(old)
+    for t in range(nthreads):
+        for cfg, sched, plan, err in results[t]:
+            desc = {"kind": "threaded", "thread": t, "sched": sched, "cfg": cfg}
+            rec.case(desc, nontrivial=plan is not None and nontrivial_plan(plan))
+            rec.count("plans_built_concurrently")
+            if err is not None:
+                if pid == "C02":
+                    rec.violation("scheduler-raises", f"{sched} (concurrent): {type(err).__name__}: {err}")
+                continue
+            check_plan(pid, plan, cfg, sched, rec, f"built concurrently with {nthreads - 1} other plans")
